@@ -66,8 +66,18 @@ def main():
     ts = [threading.Thread(target=worker, args=(k,)) for k in range(lanes)]
     [t.start() for t in ts]; [t.join() for t in ts]
     head = subprocess.run('git -C /verif rev-parse --short HEAD', shell=True, stdout=subprocess.PIPE, text=True).stdout.strip()
+    # merge with what an earlier (partial) sweep recorded
+    try:
+        for l in open('/verif/seeded/RESULTS.txt'):
+            if l.startswith('#') or not l.strip():
+                continue
+            a = l.rstrip('\n').split('\t')
+            if a[0] not in res:
+                res[a[0]] = (a[1], a[2] if len(a) > 2 else '')
+    except FileNotFoundError:
+        pass
     with open('/verif/seeded/RESULTS.txt', 'w') as f:
-        f.write(f'# quick checks of /verif at {head} against every stored seeded change (bin/seedsweep.py)\n')
+        f.write(f'# quick checks of /verif (last sweep at {head}) against every stored seeded change (bin/seedsweep.py)\n')
         for sid in sorted(res):
             f.write(f'{sid}\t{res[sid][0]}\t{res[sid][1]}\n')
     bad = [s for s in res if res[s][0] != 'VIOLATION']
